@@ -16,7 +16,7 @@ Not decided: exactly-once (property of networkx.topological_sort on a DAG).
 """
 import ast
 
-from sa import exprs as X
+from sa import exprs as X, boolfun as BF
 from sa.model import AnalysisError
 from sa.mutate import Mutant
 
@@ -152,34 +152,96 @@ def run(ctx):
     (ctx.judge('R2', 'apply:ir') if first == f'{loopvar}.transformation_ir' else
      ctx.violation('R2', 'apply:ir', pt.where, f'apply is given {first!r} instead of {loopvar}.transformation_ir'))
 
-    # --- R3
+    # --- R3 : exact truth table of the selection procedure over its atomic conditions
     nx_ = F.function('__next__')
-    txt = ast.unparse(nx_.node)
-    need = ['self.include_external', 'self.item_filter', 'self.exclude_ignored', 'node.is_ignored', 'node.mode == self.mode']
-    missing = [t for t in need if t not in txt]
-    (ctx.judge('R3', 'SFilter.__next__ flags', facts={'referenced': need}) if not missing else
-     ctx.violation('R3', 'SFilter.__next__:flags', nx_.where, f'selection no longer consults {missing}'))
-    # external skip: `if not self.include_external: continue`
-    ok = False
-    for n in ast.walk(nx_.node):
-        if isinstance(n, ast.If) and ast.unparse(n.test) == 'not self.include_external':
-            ok = any(isinstance(s, ast.Continue) for s in n.body)
-    (ctx.judge('R3', 'external skip') if ok else
-     ctx.violation('R3', 'SFilter.__next__:external', nx_.where, 'external items are not skipped under `not self.include_external`'))
-    sel = [n for n in ast.walk(nx_.node) if isinstance(n, ast.If) and 'issubclass' in ast.unparse(n.test)]
-    if not sel:
-        raise AnalysisError('SFilter.__next__: class filter test not found')
-    t = ast.unparse(sel[0].test)
-    ok = 'issubclass(node_cls, self.item_filter)' in t and 'not (self.exclude_ignored and node.is_ignored)' in t and \
-        isinstance(sel[0].test, ast.BoolOp) and isinstance(sel[0].test.op, ast.And)
-    (ctx.judge('R3', 'class/ignore filter', facts={'test': t}) if ok else
-     ctx.violation('R3', 'SFilter.__next__:filter', nx_.where, f'selection test is `{t}`'))
+    wl = [n for n in nx_.node.body if isinstance(n, ast.While)]
+    if len(wl) != 1:
+        raise AnalysisError('SFilter.__next__: while loop not found')
+    A = {'E': 'isinstance(node, ExternalItem)', 'IE': 'self.include_external', 'S': 'issubclass(node_cls, self.item_filter)',
+         'XI': 'self.exclude_ignored', 'IG': 'node.is_ignored', 'MN': 'self.mode is None',
+         'MA': 'isinstance(node, (ExternalItem, TypeDefItem, InterfaceItem))', 'MM': 'node.mode == self.mode'}
+
+    def g(env, k):
+        return env.get(A[k], False)
+
+    def expected(env):
+        return (not g(env, 'E') or g(env, 'IE')) and g(env, 'S') and not (g(env, 'XI') and g(env, 'IG')) and \
+            (g(env, 'MN') or g(env, 'MA') or g(env, 'MM'))
+    rows = bad = 0
+    example = None
+    seen_atoms = BF.collect_atoms(wl[0].body)
+    for env, label, _ in BF.truth_table(wl[0].body, constraints=lambda e: (not e.get(A['E'], False)) or e.get(A['MA'], True),
+                                        extra_atoms=list(A.values())):
+        rows += 1
+        yielded = label == 'break'
+        if yielded != expected(env):
+            bad += 1
+            example = example or ({k: v for k, v in env.items()}, yielded)
+    ctx.floor('R3', 'truth-table rows of SFilter.__next__', rows, 128)
+    facts = {'atoms': seen_atoms, 'rows': rows, 'mismatching_rows': bad}
+    if bad:
+        env, y = example
+        short = {k: env.get(v) for k, v in A.items()}
+        extra = {k: v for k, v in env.items() if k not in A.values()}
+        ctx.violation('R3', 'SFilter.__next__:selection', nx_.where,
+                      f'selection differs from (not external or include_external) and class-match and not (exclude_ignored and '
+                      f'ignored) and (mode is None or mode-agnostic type or mode match) on {bad}/{rows} rows; e.g. {short} {extra} -> '
+                      f'{"yielded" if y else "skipped"}', facts={**facts, 'example': short})
+    else:
+        ctx.judge('R3', 'SFilter.__next__:selection', facts=facts)
+    # the class used for the filter is origin_cls for externals
+    ncls = [n for n in ast.walk(nx_.node) if isinstance(n, ast.Assign) and ast.unparse(n.targets[0]) == 'node_cls']
+    vals = sorted(ast.unparse(n.value) for n in ncls)
+    (ctx.judge('R3', 'node_cls', facts={'values': vals}) if vals == ['node.origin_cls', 'type(node)'] else
+     ctx.violation('R3', 'SFilter.__next__:node_cls', nx_.where, f'class used for filtering is {vals}'))
+    # file-graph processing: the ignore rule is applied per definition item
+    gdi = [n for n in pt.node.body if isinstance(n, ast.FunctionDef) and n.name == '_get_definition_items']
+    if not gdi:
+        raise AnalysisError('process_transformation._get_definition_items vanished')
+    lp = [n for n in gdi[0].body if isinstance(n, ast.For)]
+    if not lp:
+        raise AnalysisError('_get_definition_items: loop not found')
+    lv = ast.unparse(lp[0].target)
+    B = {'CI': 'child_items', 'IN': f'{lv} in sgraph_items', 'PI': 'transformation.process_ignored_items', 'IG': f'{lv}.is_ignored'}
+    is_add = lambda st: isinstance(st, ast.AugAssign) and ast.unparse(st.target) == 'items' and lv in ast.unparse(st.value)   # noqa: E731
+    rows = bad = 0
+    example = None
+    pre = [st for st in gdi[0].body if st is not lp[0] and not isinstance(st, (ast.Return,)) and st.lineno < lp[0].lineno]
+    for env, label, marks in BF.truth_table(pre + lp[0].body, is_mark=is_add, extra_atoms=list(B.values())):
+        if label == 'return' and not marks:
+            continue        # early exit of the helper before the loop (e.g. not a file-graph traversal)
+        if not env.get('transformation.traverse_file_graph', True):
+            continue
+        rows += 1
+        want = (env[B['CI']] or env[B['IN']]) and (env[B['PI']] or not env[B['IG']])
+        if bool(marks) != want:
+            bad += 1
+            example = example or dict(env)
+    if bad:
+        ctx.violation('R3', '_get_definition_items:ignore-rule', f'{pt.module.relpath}:{lp[0].lineno}',
+                      f'a definition item is handed to the transformation iff (has children or in graph) and (process_ignored_items '
+                      f'or not item.is_ignored) -- violated on {bad}/{rows} rows, e.g. {example}', facts={'example': example})
+    else:
+        ctx.judge('R3', '_get_definition_items:ignore-rule', facts={'rows': rows})
     item = m.get_class('loki/batch/item.py', 'Item')
     tg = item.function('targets')
     src = ast.unparse(tg.node)
     ok = 'self.disable' in src and 'self.block' in src and '_get_children(exclude=exclude)' in src
     (ctx.judge('R3', 'Item.targets excludes disable+block') if ok else
      ctx.violation('R3', 'Item.targets', tg.where, 'targets no longer excludes both disabled and blocked dependencies'))
+
+
+def _flatten_selection(src):
+    """behaviour-preserving rewrite of the selection block of SFilter.__next__ (neutral variant)"""
+    a = src.find('            if issubclass(node_cls, self.item_filter) and not (self.exclude_ignored and node.is_ignored):')
+    b = src.find('        return node', a)
+    if a < 0 or b < 0:
+        return None
+    new = ('            if not issubclass(node_cls, self.item_filter):\n                continue\n'
+           '            if self.exclude_ignored and node.is_ignored:\n                continue\n'
+           '            if self.mode is None or isinstance(node, (ExternalItem, TypeDefItem, InterfaceItem)) '
+           'or node.mode == self.mode:\n                break\n')
+    return src[:a] + new + src[b:]
 
 
 MUTANTS = [
@@ -200,6 +262,11 @@ MUTANTS = [
            "        exclude = as_tuple(str(t).lower() for t in self.disable)\n        return self._get_children(exclude=exclude)",
            expect=('R3', 'Item.targets')),
     Mutant('ignore-filter-or', SF, "if issubclass(node_cls, self.item_filter) and not (self.exclude_ignored and node.is_ignored):",
-           "if issubclass(node_cls, self.item_filter) or not (self.exclude_ignored and node.is_ignored):", expect=('R3', 'filter')),
+           "if issubclass(node_cls, self.item_filter) or not (self.exclude_ignored and node.is_ignored):", expect=('R3', 'selection')),
+    Mutant('neutral-flattened-selection', SF, None, None, expect=None, edit=lambda src: _flatten_selection(src)),
+    Mutant('definition-ignore-on-parent', SC,
+           "                    if transformation.process_ignored_items or not item.is_ignored:\n                        items += (item,) + child_items",
+           "                    if transformation.process_ignored_items or not _item.is_ignored:\n                        items += (item,) + child_items",
+           expect=('R3', 'ignore-rule')),
     Mutant('neutral-rename-loopvar', SC, "for _item in traversal:", "for _item in traversal:  # each item once", expect=None),
 ]
